@@ -18,6 +18,7 @@ import sys
 import time
 import traceback
 
+os.environ.setdefault("LOGLEVEL", "CRITICAL")
 ROOT = os.path.dirname(os.path.abspath(__file__))
 sys.path.insert(0, ROOT)
 SRC_ROOT = os.environ.get("PYVC_SRC_ROOT", "/repo/src")
